@@ -5,7 +5,8 @@
 //! instrumented places. `pausepoint <site> <nth> hold` arms a site: the
 //! `<nth>` hit of it blocks the hitting thread until `release <site>`.
 //!
-//! Hits coming from the interpreter's *main* thread are ignored (neither
+//! Hits coming from the interpreter's *main* thread (the executor that runs
+//! ordinary, non-`thread` lines) are ignored (neither
 //! counted nor held): the main thread is the only one that can issue
 //! `release`, so holding it could never be undone. Worker threads created by
 //! `thread <id> …` and fjall's own background workers are counted and held.
